@@ -120,7 +120,7 @@ def run(ctx):
     sub = [(t, b, True) for t, b in pl[::stride]] + [(t, b, False) for t, b in pl[3::stride]]
     m = 0
     skipped = set()
-    for cnt, vs, sk in ctx.pmap(chunk_routines, sub, chunksize=1):
+    for cnt, vs, sk in ctx.pmap_forked(chunk_routines, sub, chunksize=1):
         ctx.add_violations(vs)
         m += cnt
         skipped |= set(sk)
